@@ -1,1 +1,2 @@
 import CG.Driver.Codec
+import CG.Model.EdgeList
